@@ -16,8 +16,8 @@ CFG = {'pre': 'cli',
          'distinct by hash of (DSL, source, argv)',
  'explanation': 'Theorems (about the decision function `cli` of Model/Cli.v, all non-boolean parameters universally quantified): exit 0 iff '
                 'arguments well formed, DSL loads, (no syntax error or --allow-parse-errors) and execution succeeds in the selected mode with every '
-                '--global bound as a string; then JSON goes to the --output file (stdout empty) or to stdout, the pretty graph to stdout unless '
-                '--quiet; --quiet changes nothing but the pretty graph; non-zero exit means no graph anywhere and a diagnostic; exit 2 only for '
+                '--global bound as a string and the --output file (if any) can be written; then JSON is in the --output file (stdout empty) or on stdout, the pretty graph on stdout unless '
+                '--quiet; --quiet changes nothing but the pretty graph; non-zero exit means no graph anywhere and a diagnostic (an unwritable --output file is exit 1); exit 2 only for '
                 "--output without --json; specification of the --global loop (split at the first '=', duplicate names rejected). Correspondence: the "
                 "binary built from /repo's working tree on every run vs `cli` applied to the results of the library run in-process on the same files "
                 "(both modes): exit code, stdout and --output file compared with the library's pretty/JSON text (JSON compared as a tree with sorted "
@@ -29,8 +29,8 @@ CFG = {'pre': 'cli',
                  "input files are readable UTF-8, the config/loader steps succeed, stdout is open; --global arguments do not start with '-' (clap "
                  'would read them as flags)',
                  'creating a file in an existing directory succeeds and in a missing directory fails (lr_create_ok of the generated cases)',
-                 'observed while building the check: with --json --output PATH an io::Error from File::create is discarded '
-                 '(`display_json(..).unwrap_or(())`): exit status 0, nothing written, no diagnostic (theorem unwritable_output_silent; cli_table (b) '
-                 'states the file content under lr_create_ok)'],
+                 'a --output path that cannot be created (generated as a path inside a missing directory) makes the tool fail: exit status 1, '
+                 'diagnostic, nothing on stdout, no file (theorem unwritable_output_fails; /repo fix f75d511 replaced the earlier '
+                 '`display_json(..).unwrap_or(())`, which exited 0 silently); a write error after a successful File::create is not generated'],
  'trusted_extra': ['cargo build --features cli of /repo into .work/cli-target; cc building the python grammar for tree-sitter-loader'],
  'partial': ['clap argument parsing, anyhow and tree-sitter-loader are outside the model; assurance for them is the correspondence stream only']}
